@@ -285,6 +285,7 @@ structure PyVal where
   iospec  : Bool := false        -- registered with an IOSpec (`DataManager.get_code`)
   reprEvaluates : Bool := true   -- for a value of a literal type: `eval(repr(value))` is the value
                                  -- (false for the floats nan, inf, -inf)
+  finite  : Bool := true         -- for a float: `math.isfinite(value)`
   reprInherited : Bool := true   -- for an instance of a subclass: `repr` is the base type's
   payload : Int := 0             -- the rest of the value
   deriving Repr
@@ -301,6 +302,7 @@ inductive Emit where
 /-- the test of the literal branch -/
 def isLiteral (test : String) (lits : List String) (v : PyVal) : Bool :=
   if test = "exact" then lits.contains v.ty
+  else if test = "exact-finite" then lits.contains v.ty && !(v.ty == "float" && !v.finite)
   else if test = "isinstance" then (v.ty :: v.bases).any lits.contains
   else false
 
@@ -331,9 +333,16 @@ def readBack (lits : List String) (e : Emit) (v : PyVal) : Option (String × Int
   | .noneLit => some ("NoneType", 0)
   | _ => some (v.ty, v.payload)
 
-/-- the trigger of known finding C15-nonfinite-float-ref: a value of a literal type whose `repr`
-is not a literal of that value -/
+/-- the trigger of the (repaired, 3bae90c) finding C15-nonfinite-float-ref: a value of a literal type
+whose `repr` is not a literal of that value -/
 def LiteralReprNotExpr (lits : List String) (v : PyVal) : Prop :=
   lits.contains v.ty = true ∧ v.reprEvaluates = false
+
+/-- What is assumed of Python about `repr` of the exact literal types (`bool`, `int`, `float`, `str`,
+`NoneType`): it is an expression for the value, except for the floats that are not finite.  This is
+the part of the statement the model takes from CPython; the correspondence samples it (every
+written literal is read back by importing the generated package). -/
+def ReprModel (lits : List String) (v : PyVal) : Prop :=
+  lits.contains v.ty = true → v.reprEvaluates = (!(v.ty == "float" && !v.finite))
 
 end MxModel.Export
